@@ -326,6 +326,21 @@ def lem_time_decompose(n, k):
     return t[0] == k // 3600 and t[1] == (k // 60) % 60 and t[2] == k % 60
 
 
+def lem_time_in_range_and_nearest(n, s):
+    """for any time of day s (seconds, real): hour < 24, minute < 60, second < 60 - no second 60 - and the time shown
+    is the nearest whole second (ties down, within the 1.1 microsecond guard), wrapping at midnight"""
+    from pycel.lib.date_time import time_from_serialnumber
+    t = time_from_serialnumber(n + s / 86400)
+    total = t[0] * 3600 + t[1] * 60 + t[2]
+    in_range = 0 <= t[0] < 24 and 0 <= t[1] < 60 and 0 <= t[2] < 60
+    near = abs(total - s) <= 0.5 + 2e-6 or abs(total + 86400 - s) <= 0.5 + 2e-6
+    return in_range and near
+
+
+def time_pre_real(n, s):
+    return 0 <= n <= MAX_SERIAL and 0 <= s < 86400
+
+
 def time_pre(n, k):
     return 0 <= n <= MAX_SERIAL and 0 <= k < 86400
 
@@ -358,6 +373,8 @@ LEMMAS = [
           modular=[DATE, DFI]),
     Lemma('day_60_is_1900_02_29', 'C17', dict(n=Const(0)), lem_day60, modular=[NY]),
     Lemma('weekday_has_period_7', 'C17', dict(n=Int(0, MAX_SERIAL - 7)), lem_weekday_period),
+    Lemma('time_is_nearest_second_and_carries', 'C17', dict(n=Int(), s=Float()), lem_time_in_range_and_nearest,
+          requires=[time_pre_real], notes='no second 60: the seconds carry into minutes and hours (A-FLOAT: reals)'),
     Lemma('hour_minute_second_decompose_exact_seconds', 'C17', dict(n=Int(), k=Int()), lem_time_decompose,
           requires=[time_pre]),
     Lemma('yearfrac_symmetric', 'C17',
